@@ -33,7 +33,8 @@ const char *K_REFTYPE = "C16-refinesurp-reftype";        // -refinesurp requires
 const char *K_UPDOUT = "C16-makeupdate-no-output";       // -makeupdate ignores -outputfile/-print although help promises the new points
 const char *K_UCWRITE = "C16-using-construct-rewrites"; // the query -using-construct re-writes the grid file (binary unless -ascii is given)
 const char *K_NIDX = "C16-getneededindexes-empty";       // -getneededindexes/-getpointsindexes with zero rows: &vector[0] of an empty vector (UBSan) in outputIndexes
-const std::vector<const char *> ALL_K = {K_NIDX, K_UCWRITE, K_OUT0, K_MQLOCAL, K_SCALE, K_FLOAT, K_GNNAME, K_SCALIAS, K_SETCF, K_REFF, K_REFTYPE, K_UPDOUT};
+const char *K_EHS0 = "C16-evalhierarchys-empty";         // -evalhierarchys with ascii/-print output and no non-zero: IO::writeVector reads x[0] of an empty vector
+const std::vector<const char *> ALL_K = {K_EHS0, K_NIDX, K_UCWRITE, K_OUT0, K_MQLOCAL, K_SCALE, K_FLOAT, K_GNNAME, K_SCALIAS, K_SETCF, K_REFF, K_REFTYPE, K_UPDOUT};
 
 void dev_known_once() {
     static bool done = false; if (done) return; done = true;
@@ -319,7 +320,8 @@ struct Script {
         outputs(v, true);
         return step(v, [&](TasmanianSparseGrid &g, Expect &e) {
             const std::vector<double> &x = v.files[0].m.v; int np = g.getNumPoints(), outs = g.getNumOutputs();
-            if (which == 5) { e.has_sparse = true; e.sp.cols = np; g.evaluateSparseHierarchicalFunctions(x, e.sp.pntr, e.sp.indx, e.sp.vals); e.sp.rows = n; return; }
+            if (which == 5) { e.has_sparse = true; e.sp.cols = np; g.evaluateSparseHierarchicalFunctions(x, e.sp.pntr, e.sp.indx, e.sp.vals); e.sp.rows = n;
+                if (e.sp.vals.empty() && ((v.of && v.ascii) || v.print) && ctx.excl(K_EHS0)) throw Skip(); return; }
             e.has_mat = true; Mat m; m.rows = n;
             switch (which) {
             case 0: m.cols = outs; m.v.resize((size_t)n * (size_t)outs); g.evaluateBatch(x.data(), n, m.v.data()); break;
@@ -526,13 +528,13 @@ struct Script {
         bool data = outs > 0 && nl > 0;
         std::vector<std::pair<int, int>> w;   // (command, weight): total must stay below 256
         auto add = [&](int c, int wt, bool legal) { if (legal) w.push_back({c, wt}); };
-        add(C_LOAD, nl == 0 ? 40 : (nn > 0 ? 14 : 5), outs > 0 && !constructing && nl + nn > 0);
+        add(C_LOAD, nl == 0 ? 40 : (nn > 0 ? 30 : 5), outs > 0 && !constructing && nl + nn > 0);
         add(C_EVAL, 5, data); add(C_INTEGRATE, 4, data); add(C_GETCOEFF, 3, data); add(C_DIFF, 3, data && !conf);   // derivatives are not defined under a conformal map
         add(C_REFANISO, 6, data && aniso_capable && !arbitrary_coeffs && !constructing);
         add(C_REFSURP, 6, data && surplus_capable && !constructing);
         add(C_REFINE, 5, data && !constructing && (local || (aniso_capable && !arbitrary_coeffs)));
         add(C_GETANISO, 5, data && aniso_capable && !arbitrary_coeffs);
-        add(C_MERGE, 12, data && nn > 0 && !constructing);
+        add(C_MERGE, 30, data && nn > 0 && !constructing);
         add(C_CANCEL, (nn > 0 || constructing) ? 7 : 2, nl > 0 || constructing);
         add(C_SETCOEFF, 4, outs > 0 && !constructing && nl + nn > 0);
         add(C_UPDATE, 5, gsf && !constructing && nl + nn > 0);
